@@ -153,6 +153,12 @@ def _first_diff(a, b):
 
 
 def run(sim):
+    # process-global mutable state (header-name cache) must not leak between runs in a warm worker
+    try:
+        from twisted.web import http_headers as _hh
+        _hh._nameEncoder._canonicalHeaderCache.clear()
+    except AttributeError:
+        pass
     knobs = {
         "MAX_LENGTH": sim.draw_choice([16384, 16384, 16384, 48, 100], "MAX_LENGTH"),
         "totalHeadersSize": sim.draw_choice([16384, 16384, 16384, 120, 300], "totalHeadersSize"),
